@@ -110,10 +110,35 @@ func checkC11(c *core.Ctx) {
 		var args []string
 		ok := false
 		key := "C"
+		degreeTwin := ""
 		if syllable {
 			key = model.RandKey(r)
+			if i%4 == 0 {
+				// one modulation between two keys of the same letter and mode that differ in the accidental only (F -> F#)
+				sib := [][2]string{{"C", "C#"}, {"C", "Cb"}, {"C#", "Cb"}, {"D", "Db"}, {"E", "Eb"}, {"F", "F#"}, {"G", "Gb"}, {"A", "Ab"}, {"B", "Bb"}, {"C#m", "Cm"}, {"D#m", "Dm"}, {"Ebm", "Em"}, {"F#m", "Fm"}, {"G#m", "Gm"}, {"Bbm", "Bm"}}[r.Intn(15)]
+				a, b := sib[0], sib[1]
+				if r.Intn(2) == 0 {
+					a, b = b, a
+				}
+				key = a
+				for j := range p.Inst {
+					p.Inst[j].Key = ""
+				}
+				p.Inst[len(p.Inst)/2].Key = b
+			}
 			base, ok = p.SyllableTextPiece(key, model.TextOpts{})
 			args = []string{"text", "conv", "syllable", "--key", key}
+			// the same piece in degree numbers: what the note names have to mean ("an accidental that is accepted is
+			// honoured", also the accidental of a key written in braces, on a chord or on a rest)
+			simple := true
+			for _, in := range p.Inst {
+				if ch := in.Chord; ch != nil && (ch.Deg.N > 7 || (ch.Bass != nil && ch.Bass.N > 7)) {
+					simple = false // note names cannot say "an octave higher"
+				}
+			}
+			if simple {
+				degreeTwin, _ = p.DegreeTextPiece(model.TextOpts{})
+			}
 		} else {
 			base, ok = p.DegreeTextPiece(model.TextOpts{})
 			args = []string{"text", "conv", "degree"}
@@ -154,6 +179,17 @@ func checkC11(c *core.Ctx) {
 		if i%4 == 2 {
 			longLine = ";" + strings.Repeat([]string{"-", "= ruler ", "C[1] D[1] ", "♭x"}[r.Intn(4)], 600+r.Intn(2500)) + "\n"
 		}
+		if degreeTwin != "" && ref.OK() && i%3 != 1 {
+			tw := run(c, []byte(degreeTwin), "text", "conv", "degree")
+			c.Eval(1)
+			if infra(c, tw) {
+				return
+			}
+			if tw.OK() && !bytes.Equal(tw.Stdout, ref.Stdout) {
+				c.Violate("class", i, "honoured", fmt.Sprintf("%s in %s does not convert to the instances of the same piece written in degrees %s: %s", qs([]byte(base)), key, qs([]byte(degreeTwin)), firstLineDiff(tw.Stdout, ref.Stdout)), map[string]any{"note_names": obs(ref), "degrees": obs(tw)})
+				return
+			}
+		}
 		texts := map[string]bool{base: true}
 		features := map[string]bool{}
 		for v := 0; v < nv; v++ {
@@ -180,7 +216,13 @@ func checkC11(c *core.Ctx) {
 				continue
 			}
 			texts[vt] = true
-			got := run(c, []byte(vt), args...)
+			vargs := args
+			if v%5 == 3 && ref.OK() {
+				// --debug adds log lines on stderr and nothing else
+				vargs = append(append([]string{}, args...), "--debug")
+				f["debug"] = true
+			}
+			got := run(c, []byte(vt), vargs...)
 			c.Eval(1)
 			if infra(c, got) {
 				return
@@ -338,7 +380,7 @@ func checkC11(c *core.Ctx) {
 
 func featureList(f map[string]bool) string {
 	var l []string
-	for _, k := range []string{"comment", "leading-zero", "underscore", "unicode", "long-line"} {
+	for _, k := range []string{"comment", "leading-zero", "underscore", "unicode", "long-line", "debug"} {
 		if f[k] {
 			l = append(l, k)
 		}
